@@ -34,6 +34,15 @@ def label_shape(v):
     if not isinstance(v, Vec):
         return None
     segs = v.nonempty_segs()
+    if len(segs) == 5 and all(s_.n == 1 for s_ in segs):
+        # [tag, b0, b1, b2, b3] with b_i the i-th byte of one u32 encoding (destructured to_le_bytes / to_be_bytes)
+        tag = segs[0].f(sp.Integer(0))
+        bs = [s_.f(sp.Integer(0)) for s_ in segs[1:]]
+        if isinstance(tag, IntV) and all(isinstance(b_, Opaque) and b_.what == "byte-of" and b_.info.get("j") == i_ for i_, b_ in enumerate(bs)) and all(b_.info["src"] is bs[0].info["src"] for b_ in bs):
+            val = bs[0].info["src"]
+            if isinstance(val, Bytes) and len(val.parts) == 1 and val.parts[0][0] == "u32":
+                return (int(tag.e), (val.parts[0][1], val.parts[0][2], sp.Integer(4)))
+        return None
     if len(segs) != 2 or segs[0].n != 1:
         return None
     tag = segs[0].f(sp.Integer(0))
